@@ -1043,6 +1043,8 @@ def replay_behaviour(rec_json, const, flavour, mode, method, fitmode, seed, thet
         if a.shape != (2,) or not close(a[0], want[0]) or not close(a[1], want[1]):
             viol('d/ceiling-value', {'stored': a, 'denoted': want})
     # ---- dof
+    if rc['bootR'] and rc['bootP'] and n_units(rc, nr, nc)[1] < n_units(rc, nr, nc)[0]:
+        stats['dofP_' + name] = 1       # the smaller factor is the condition axis
     want = rec_json['dof']
     if rc['routine'] != 'crossval' and res.dof != want:
         cls = 'grouped-descriptor' if grouped(rc, nr, nc) else 'unique-descriptor'
@@ -1195,6 +1197,8 @@ def random_run(rc, const, flavour, mode, method, fitmode, seed, theta_supplied=T
                                                                     x['pidx'], rc['byP'])):
                     stats['method_sensitive'] += 1
     # dof
+    if rc['bootR'] and rc['bootP'] and n_units(rc, nr, nc)[1] < n_units(rc, nr, nc)[0]:
+        stats['dof_cond_smaller'] = 1
     want = dof_rule(rc, nr, nc)
     if want is not None and res.dof != want:
         cls = 'grouped-descriptor' if grouped(rc, nr, nc) else 'unique-descriptor'
